@@ -341,6 +341,8 @@ class LoopInterp:
                 v = SliceRef()
             elif k == self.conv_k:
                 v = ConvRef()
+            elif getattr(self, 'upvars', None) is not None and k < len(self.upvars):
+                v = self.upvars[k]        # a closure applied in place: its captures, evaluated where it was built
             else:
                 v = Opaque('upvar %d' % k)
             rest = pl['p'][2:]
@@ -362,13 +364,19 @@ class LoopInterp:
             elif isinstance(e, dict) and 'f' in e:
                 if isinstance(v, Tup):
                     v = v.items[e['f']]
+                elif isinstance(v, En) and getattr(v, 'conv', False) and v.kind == 'Result':
+                    # the converter's own answer matched directly: Ok(Converted(u) | Abandonned) / Err(e)
+                    v = En('Conv', None, Produced()) if v.variant == 'Ok' else Opaque('error value')
                 elif isinstance(v, En):
                     v = v.payload if v.payload is not None else Opaque('payload')
                 else:
                     v = Opaque('field')
             elif isinstance(e, dict) and 'downcast' in e:
                 if isinstance(v, En) and v.variant is None:
-                    v = En(v.kind, e.get('name'), v.payload)
+                    v2 = En(v.kind, e.get('name'), v.payload)
+                    if getattr(v, 'conv', False):
+                        v2.conv = True
+                    v = v2
             else:
                 raise CUnanalysable('projection %r' % (e,))
         return v
@@ -552,6 +560,9 @@ class LoopInterp:
             if its is not None and {l: (v.start, v.end) for l, v in cur.items()} != {l: (v.start, v.end) for l, v in its.items()}:
                 raise CUnanalysable('different iterators reach the loop head')
             its = cur
+        # what the prologue left in the locals (references to the buffer / the counters, constants)
+        # stays valid in the loop: locals only change when they are assigned
+        self.entry_locals = dict(arrived[0].L) if len(arrived) == 1 else {}
         return its or {}
 
     def run(self, head, ranges=None, assume=None):
@@ -564,6 +575,7 @@ class LoopInterp:
         d.assume_le(('p', 0), ('q', 0))
         d.assume_le(('q', 0), ('n', 0))
         d.assume_le(('n', 0), (MAXS, 0))
+        st.L.update(getattr(self, 'entry_locals', {}) or {})
         for l, r in (ranges or {}).items():
             st.L[l] = RangeIt(('i', 0), r.end)
         for c in assume or []:
@@ -683,6 +695,9 @@ class LoopInterp:
                     if names and val < len(names) and not d[1]['p']:
                         old = s2.L.get(d[1]['l'])
                         s2.L[d[1]['l']] = En(kind, names[val], old.payload if isinstance(old, En) else None)
+                        for attr in ('conv', 'src'):
+                            if hasattr(old, attr):
+                                setattr(s2.L[d[1]['l']], attr, getattr(old, attr))
                     outs.append((s2, tgt))
                 if not names or len(t['targets']) < len(names):
                     outs.append((st.fork(), t['otherwise']))
@@ -734,19 +749,22 @@ class LoopInterp:
         `.map(|last| &mut *(last as *mut T).cast::<U>())`): its body is interpreted with the same state."""
         defs = local_defs(self.b)
         c = trace_value(self.b, defs, cl_op)[-1]
-        if not (c[0] == 'rv' and c[1].get('ak') == 'closure' and not c[1]['fields']):
+        if not (c[0] == 'rv' and c[1].get('ak') == 'closure'):
             raise CUnanalysable('cannot see through the closure applied at %s' % where)
+        upvars = [self.operand(st, f) for f in c[1]['fields']]
         cb = self.crate.lookup(c[1]['closure']) if getattr(self, 'crate', None) is not None else None
         if cb is None:
             raise CUnanalysable('closure body not found at %s' % where)
         sub = LoopInterp(self.ctx, cb, [], None, None, self.label)
         sub.roles = self.roles
         sub.crate = self.crate
+        sub.upvars = upvars
+        sub.cell_fields = []
         sub.quiet = getattr(self, 'quiet', False)
         sub.obl = self.obl
         sub.exits = []
         saved = st.L
-        st.L = {1: Opaque('closure env'), 2: arg}
+        st.L = {1: Tup(list(upvars)), 2: arg}     # (by-value closure: `_1.k`; by-reference: `(*_1).k` through upvars)
         work = []
         bb = 0
         for _ in range(200):
@@ -837,6 +855,21 @@ class LoopInterp:
             if not st.dbm.consistent():
                 return None
             st.L[t['dest']['l']] = En('Option', 'Some', SlotRef(lf_add(ss.hi, -1), 'T', p.endswith('last_mut') and ss.mut))
+            return t['t']
+        elif p == 'core::option::Option::<T>::map' and len(args) == 2 and isinstance(args[0], CheckedSub):
+            # a.checked_sub(b).map(f): Some(f(a - b)) exactly when b <= a
+            cs = args[0]
+            if t['t'] is None or t['dest']['p']:
+                raise CUnanalysable('map at %s' % where)
+            s_none = st.fork()
+            s_none.dbm.assume_lt(cs.a, ('0', cs.b[1]))
+            if s_none.dbm.consistent():
+                s_none.L[t['dest']['l']] = En('Option', 'None', None)
+                work.append((s_none, t['t'], False))
+            st.dbm.assume_le(('0', cs.b[1]), cs.a)
+            if not st.dbm.consistent():
+                return None
+            st.L[t['dest']['l']] = En('Option', 'Some', self.apply_closure(st, t['args'][1], Num(lf_add(cs.a, -cs.b[1])), where))
             return t['t']
         elif p == 'core::option::Option::<T>::map' and len(args) == 2 and isinstance(args[0], En) and args[0].kind == 'Option' and args[0].variant is not None:
             if args[0].variant == 'None':
@@ -1343,7 +1376,7 @@ def cleanup_rules(ctx, crate, info, conv, label):
     if len(sl) != 1:
         # not on a straight line: take the calls met on the success paths (each path must have exactly one)
         sp = [pt for pt in tail_paths(b, info['t_cu']['t'], info['t_cu']['dest']['l']) if pt['case'] == 'success']
-        per = [[(bb, t) for bb, t, av in pt['calls'] if callee_path(t) == 'alloc::vec::Vec::<T, A>::set_len'] for pt in sp]
+        per = [[(bb, t) for bb, t, av, _sn in pt['calls'] if callee_path(t) == 'alloc::vec::Vec::<T, A>::set_len'] for pt in sp]
         if sp and all(len(x) == 1 for x in per) and len({id(x[0][1]) for x in per}) == 1:
             sl = per[0]
     if raw_ok:
@@ -1414,7 +1447,7 @@ def cleanup_rules(ctx, crate, info, conv, label):
         cands = set()
         for pt in paths:
             if pt['case'] in ('error', 'panic'):
-                for (bb, t, av) in pt['calls']:
+                for (bb, t, av, _sn) in pt['calls']:
                     p = callee_path(t) or ''
                     if p.startswith('truc_runtime::') and p != FN and crate.lookup(p) is not None:
                         cands.add(p)
@@ -1434,10 +1467,10 @@ def cleanup_rules(ctx, crate, info, conv, label):
         for pt in by_case[arm]:
             where = '%s path (via bb%s)' % (arm, '>'.join(str(x) for x in pt['trace'][:6]))
             seq = pt['calls']
-            i_clean = [i for i, (bb, t, av) in enumerate(seq) if is_cleanup_call(t)]
-            i_len0 = [i for i, (bb, t, av) in enumerate(seq) if callee_path(t) == 'alloc::vec::Vec::<T, A>::set_len' and op_int(t['args'][1]) == 0]
-            i_rel = [i for i, (bb, t, av) in enumerate(seq) if is_release(t)]
-            i_raw = [i for i, (bb, t, av) in enumerate(seq) if is_release_raw(t)]
+            i_clean = [i for i, (bb, t, av, _sn) in enumerate(seq) if is_cleanup_call(t)]
+            i_len0 = [i for i, (bb, t, av, _sn) in enumerate(seq) if callee_path(t) == 'alloc::vec::Vec::<T, A>::set_len' and op_int(t['args'][1]) == 0]
+            i_rel = [i for i, (bb, t, av, _sn) in enumerate(seq) if is_release(t)]
+            i_raw = [i for i, (bb, t, av, _sn) in enumerate(seq) if is_release_raw(t)]
             if i_raw and not i_rel:
                 i_rel = i_raw
                 i_len0 = i_len0 + [i - 0.5 for i in i_raw]     # rebuilt with length 0
@@ -1460,7 +1493,7 @@ def cleanup_rules(ctx, crate, info, conv, label):
                     ctx.inst('O7', '%s path releases the allocation [%s]' % (arm, label))
     for pt in by_case['success']:
         seq = pt['calls']
-        if any(is_cleanup_call(t) for bb, t, av in seq):
+        if any(is_cleanup_call(t) for bb, t, av, _sn in seq):
             ctx.add(['C08'], 'O5', 'success path', 'the cleanup routine runs on the success path', key='cleanup-on-success')
         if pt['end'][0] != 'return' or not (isinstance(pt['end'][1], ENode) and pt['end'][1].vname == 'Ok'):
             ctx.add(['C08'], 'O5', 'success path', 'the success path does not return Ok(..)', key='success-return')
@@ -1555,13 +1588,14 @@ def enum_kind(ty):
     return None
 
 
-def tail_paths(b, start, res_local, max_paths=400):
+def tail_paths(b, start, res_local, max_paths=400, roots=None):
     """All normal-edge paths from `start` (the block catch_unwind returns to) to an exit.  Returns dicts
     {case, calls: [(bb, term, arg values)], end: ('return', value) | ('diverge', term, arg values) | (kind,), trace}."""
     if start is None:
         raise CUnanalysable('catch_unwind has no return edge')
-    root = ENode(('res',), enum_kind(b.local_ty(res_local)) or 'core::result::Result')
+    root = ENode(('res',), enum_kind(b.local_ty(res_local)) or 'core::result::Result') if res_local is not None else None
     out = []
+    tracked = []      # root nodes created on the way (by `roots`), to snapshot what a path knew at each call
 
     def fork_env(env):
         memo = {}
@@ -1608,7 +1642,7 @@ def tail_paths(b, start, res_local, max_paths=400):
             return ('const', op['const'].get('int'), op['const'])
         return None
 
-    work = [(start, {res_local: root}, [], [], frozenset())]
+    work = [(start, ({res_local: root} if res_local is not None else {}), [], [], frozenset())]
     while work:
         bb, env, calls, trace, seen = work.pop()
         while True:
@@ -1648,15 +1682,31 @@ def tail_paths(b, start, res_local, max_paths=400):
                 continue
             if k == 'call':
                 av = [eval_op(env, a) for a in t['args']]
-                calls = calls + [(bb, t, av)]
+                snap = {}
+                for v_ in env.values():
+                    if isinstance(v_, ENode) and v_.origin and len(v_.origin) == 1:
+                        snap[v_.origin] = v_.vname
+                    if isinstance(v_, tuple) and v_ and v_[0] == 'discr' and isinstance(v_[1], ENode) and v_[1].origin and len(v_[1].origin) == 1:
+                        snap[v_[1].origin] = v_[1].vname
+                calls = calls + [(bb, t, av, snap)]
                 if t['t'] is None:
                     out.append({'env': env, 'calls': calls, 'end': ('diverge', t, av), 'trace': trace})
                     break
                 p = callee_path(t) or ''
                 if not t['dest']['p']:
+                    org = roots(t) if roots is not None else None
                     # values handed through identity-like calls
-                    if p in ('core::mem::manually_drop::ManuallyDrop::<T>::into_inner',) or p.endswith('::into') or p.endswith('From<T>>::from'):
+                    if org is not None:
+                        env[t['dest']['l']] = ENode(org, enum_kind(b.local_ty(t['dest']['l'])))
+                    elif p in ('core::mem::manually_drop::ManuallyDrop::<T>::into_inner',) or p.endswith('::into') or p.endswith('From<T>>::from'):
                         env[t['dest']['l']] = av[0] if av else None
+                    elif p.endswith('as core::ops::try_trait::Try>::branch') and av and isinstance(av[0], ENode) and av[0].vname in ('Ok', 'Err', 'Some', 'None'):
+                        # `x?`: Continue(payload) for Ok / Some, Break(residual) otherwise
+                        x_ = av[0]
+                        if x_.vname in ('Ok', 'Some'):
+                            env[t['dest']['l']] = ENode(None, 'core::ops::control_flow::ControlFlow', 'Continue', {0: x_.fields.get(0)})
+                        else:
+                            env[t['dest']['l']] = ENode(None, 'core::ops::control_flow::ControlFlow', 'Break', {0: x_})
                     else:
                         env[t['dest']['l']] = None
                 bb = t['t']
@@ -1703,7 +1753,7 @@ def tail_paths(b, start, res_local, max_paths=400):
     for pt in out:
         if pt['end'][0] == 'unreachable':
             continue
-        r = pt['env'].get(res_local)
+        r = pt['env'].get(res_local) if res_local is not None else None
         case = 'unknown'
         # the root node of this path: find through any value whose origin is ('res',)
         node = r if isinstance(r, ENode) and r.origin == ('res',) else None
